@@ -199,4 +199,72 @@ example : wellTyped (.mk 2 .list true false []) (.list [.int 1]) = true ∧
     (FieldDesc.find [.mk 1 .one false false [], .mk 2 .list true false []] 2).isSome = true := by
   decide
 
+/-! ### load.Load with patch files (model `Model.Patch.load`, tied by e2e.C13.load) -/
+
+/-- **C13_load_only_main**: in only-main mode the patch files are ignored, whatever they hold -/
+theorem C13_load_only_main (d : List FieldDesc) (pt : PatchType) (main : Val) (ps : List (Option Val)) :
+    load d pt .onlyMain main ps = main := by
+  simp [load, loadWith]
+
+/-- **C13_load_missing_files_ignored**: patch files that do not exist change nothing, wherever they stand in
+the given order -/
+theorem C13_load_missing_files_ignored (d : List FieldDesc) (pt : PatchType) (mode : LoadMode) (main : Val)
+    (ps qs : List (Option Val)) :
+    load d pt mode main (ps ++ none :: qs) = load d pt mode main (ps ++ qs) := by
+  simp [load, loadWith, List.filterMap_append]
+
+/-- **C13_load_merge_in_order**: merge mode applies every existing patch file in the given order: loading with
+one more patch file at the end is patching the previous result with it -/
+theorem C13_load_merge_in_order (d : List FieldDesc) (mode : LoadMode) (hm : mode ≠ .onlyMain) (main p q : Val)
+    (ps : List (Option Val)) :
+    load d .merge mode main (some p :: ps ++ [some q]) = patch d (load d .merge mode main (some p :: ps)) q := by
+  cases mode <;> simp_all [load, loadWith, List.filterMap_append, List.foldl_append, List.getLast?_append, List.getLast?_cons]
+  all_goals
+    cases h : (List.filterMap id ps).getLast? <;> simp [h]
+
+/-- **C13_load_empty_patch_identity**: a patch file holding the empty message is the identity in merge mode,
+at any position (the patched result is a message whenever the main file's is) -/
+theorem C13_load_empty_patch_identity (d : List FieldDesc) (mode : LoadMode) (mfs : List (Nat × Val))
+    (ps qs : List (Option Val)) (hps : ∀ p ∈ ps, ∀ v, p = some v → ∃ fs, v = .msg fs)
+    (hne : (ps ++ qs).filterMap id ≠ []) :
+    load d .merge mode (.msg mfs) (ps ++ some (.msg []) :: qs) = load d .merge mode (.msg mfs) (ps ++ qs) := by
+  have hmsg : ∀ (l : List Val) (acc : List (Nat × Val)), (∀ v ∈ l, ∃ fs, v = .msg fs) →
+      ∃ fs, l.foldl (patch d) (.msg acc) = .msg fs := by
+    intro l
+    induction l with
+    | nil => intro acc _; exact ⟨acc, rfl⟩
+    | cons v rest ih =>
+      intro acc hv
+      obtain ⟨fs, rfl⟩ := hv v (by simp)
+      simp only [List.foldl_cons, patch]
+      exact ih _ (fun x hx => hv x (by simp [hx]))
+  have hps' : ∀ v ∈ ps.filterMap id, ∃ fs, v = .msg fs := by
+    intro v hv
+    simp only [List.mem_filterMap, id] at hv
+    obtain ⟨p, hp, rfl⟩ := hv
+    exact hps _ hp v rfl
+  have hfold : ∀ (acc : List (Nat × Val)),
+      ((ps.filterMap id) ++ .msg [] :: qs.filterMap id).foldl (patch d) (.msg acc) =
+      ((ps.filterMap id) ++ qs.filterMap id).foldl (patch d) (.msg acc) := by
+    intro acc
+    simp only [List.foldl_append, List.foldl_cons]
+    obtain ⟨fs, hfs⟩ := hmsg _ acc hps'
+    rw [hfs, C13_identity]
+  have hne' : (ps.filterMap id ++ qs.filterMap id) ≠ [] := by simpa [List.filterMap_append] using hne
+  have hl1 : ((ps.filterMap id) ++ Val.msg [] :: qs.filterMap id).getLast?.isSome = true := by
+    cases h : ((ps.filterMap id) ++ Val.msg [] :: qs.filterMap id).getLast? with
+    | none => simp [List.getLast?_eq_none_iff] at h
+    | some _ => rfl
+  have hl2 : ((ps.filterMap id) ++ qs.filterMap id).getLast?.isSome = true := by
+    cases h : ((ps.filterMap id) ++ qs.filterMap id).getLast? with
+    | none => rw [List.getLast?_eq_none_iff] at h; exact absurd h hne'
+    | some _ => rfl
+  obtain ⟨l1, hl1⟩ := Option.isSome_iff_exists.mp hl1
+  obtain ⟨l2, hl2⟩ := Option.isSome_iff_exists.mp hl2
+  cases mode <;>
+    simp [load, loadWith, List.filterMap_append, hl1, hl2, hfold]
+
+example : load [] .merge .all (.msg [(1, .int 1)]) [some (.msg []), none] = .msg [(1, .int 1)] := by
+  simp [load, loadWith, patch, patchFields]
+
 end TableauVerif.Props.C13
